@@ -215,3 +215,10 @@ package store
 //@   local requires @notice-open s.flushNotice != nil ==> !closed(s.flushNotice)
 //@   ensures @notice noticeFresh(s) && (s.flushNotice != nil ==> !closed(s.flushNotice))
 //@   modifies s.lastFlush, s.flushRate, s.flushNotice, chan(s.flushNotice), s.index.$pending, s.index.Primary.$pending, s.index.Primary.$failed, s.freelist.$pending
+
+// Start (C17): the flusher goroutine is started at most once - only when the store was not
+// running - so there is exactly one goroutine for Close to stop.
+//@ func (s *Store) Start()  property C17
+//@   modifies s.running
+//@   ensures @running s.running
+//@   internal ensures @started-once event("spawn:(*github.com/ipld/go-storethehash/store.Store).run") == ite(old(s.running), 0, 1)
